@@ -389,6 +389,22 @@ def zero_raw(t):
     return [0] * codec.tsize(t)
 
 
+def zero_nodes(d):
+    """All-zero nodes for one repeat of a group definition (nested fixed groups
+    expanded, counted / variable groups empty)."""
+    out = []
+    for k, v in d.items():
+        if is_bitfield_def(v):
+            out.append(["b", k, v[0], [[f, t, 0] for f, t in v[1].items()], 0])
+        elif is_group_def(v):
+            n = v[0] if isinstance(v[0], int) else 0
+            out.append(["g", k, [zero_nodes(v[1]) for _ in range(n)]])
+        else:
+            t, scale = (v[0], v[1]) if isinstance(v, list) else (v, None)
+            out.append(["f", k, t, scale, zero_raw(t)])
+    return out
+
+
 def restrict_full(defn, nodes, keep, bf, count_fn):
     """restrict() + group re-sizing following the definition `defn`."""
     def walk(d, ns, idx, top):
@@ -418,9 +434,9 @@ def restrict_full(defn, nodes, keep, bf, count_fn):
                     cnt = count_fn(top, n, int(leaf_lookup(top, n) or 0))
                 its = []
                 for i in range(cnt):
-                    src = nd[2][i] if i < len(nd[2]) else None
-                    if src is None:
-                        break
+                    # repeats beyond those of the instance (a count that grew) are
+                    # all-zero: nothing was supplied for them
+                    src = nd[2][i] if i < len(nd[2]) else zero_nodes(sub)
                     its.append(walk(sub, src, idx + (i + 1,), top))
                 out.append(["g", nd[1], its])
         return out
